@@ -668,6 +668,19 @@ pub fn fp_line(run: &mut Run, id: &str, c: &Case, d: Derived, o: &Obs) {
     let fields = fields.join(" ");
     let panicked = |r: &Result<String, String>| r.as_ref().err().is_some_and(|e| e.starts_with("panic:"));
     let name = MODE_NAMES[c.mode as usize];
+    // `total_hits()` of the score states is a plain u32 sum.  catch's `generate_state` keeps provided
+    // tiny_droplets / tiny_droplet_misses beyond the map's count (C12: "kept whenever they fit" only), so
+    // e.g. `.tiny_droplets(u32::MAX).tiny_droplet_misses(1)` makes `total_hits()` overflow inside
+    // `calculate()`: debug panic / release wrap (the pp model counts in Nat: stated assumption of C09).
+    // Counted, reported (docs/delivery-PP.md), not compared.
+    if let Ok(s) = &o.s1 {
+        let from = if c.mode == MANIA { 0 } else if c.mode == OSU { 4 } else { 1 };
+        let total: u64 = s[from..].iter().map(|&v| u64::from(v)).sum();
+        if total > u64::from(u32::MAX) {
+            run.count(&format!("FP-{name}: skipped, total_hits() of the generated state overflows u32 (provided results beyond the map's count are kept)"));
+            return;
+        }
+    }
     let (req, obs): (String, Result<String, String>) = match c.mode {
         OSU => {
             let a = osu_attrs(c);
